@@ -726,6 +726,9 @@ class Interp:
             return
         if isinstance(obj, Opaque):
             return
+        if getattr(obj, 'is_sarr', False):
+            obj.attrs[name] = val          # attribute of an array object (variable metadata)
+            return
         raise Unsupported('setattr %s on %r' % (name, obj))
 
     # ---- statements --------------------------------------------------------
